@@ -31,6 +31,8 @@ SPECIAL = [
     'Table t {\n id int [pk, pk, unique, unique, not null, null]\n}', 'Table t {\n id int unique pk unique\n}',
     'Project p {\n k: \'v\'\n k: \'w\'\n Note: \'a\'\n Note { \'b\' }\n}', 'Project p {\n}\nProject q {\n}',
     'Table t {\n id int\n}\nTableGroup g {\n t\n Note: \'a\'\n Note { \'b\' }\n}',
+    'Table t {\n a int\n b int\n}\nTable u {\n x int [ref: > t."a,b"]\n}\n', 'Table t {\n a int\n b int\n}\nRef: t."a,b" > t.(a, b)\n',
+    'Table t {\n a int\n "(a)" int [ref: - t."(a)"]\n}\n', 'Table t {\n a int\n " a " int\n}\nRef: t." a " > t.a\n',
 ]
 
 
@@ -119,7 +121,7 @@ def gen_inputs(ctx):
             # splice a special fragment into a valid document
             b = rng.choice(base)
             frag = rng.choice(["'   '", "'''\n  \n'''", '"a.b.c"', '"x{y}"', '"a\\nb"', '9' * rng.choice([1, 30, 4301]), "''", '``', '"\\x"', '#', '()', '(,)',
-                               'note: \'\\\\\'', '.', '..', 'a.b.c.d', '"."', "'\\", 'ſet null', 'nıll'])
+                               'note: \'\\\\\'', '.', '..', 'a.b.c.d', '"."', "'\\", 'ſet null', 'nıll', '"id,x"', '"(id)"', '" id "', '"id, id"'])
             toks = GT.tokens(b)
             i = rng.randrange(len(toks) + 1)
             if rng.random() < 0.5 and toks:
@@ -172,7 +174,13 @@ def main(tier, seed):
                 if exc.startswith('internal'):
                     ctx.fail(f'{name} of a parsed database raises {exc[9:]}', {'op': 'render', 'text': t, 'props': p, 'what': name}, reason=reason)
                 elif exc.startswith('lib:'):
+                    # "whenever parsing returns a database, both renderings evaluate without raising": the
+                    # library's own exceptions count as well
                     ctx.count('render:' + name + ':' + exc)
+                    d = r.get('dump') or {'refs': []}
+                    if exc == 'lib:DBMLError' and any(x.get('inline') and (len(x['col2']) > 1 or len(x['col1']) > 1) for x in d['refs']):
+                        reason = 'RefColumnSplit'
+                    ctx.fail(f'{name} of a parsed database raises {exc[4:]}', {'op': 'render', 'text': t, 'props': p, 'what': name}, reason=reason)
         if model is not None:
             m = model[k]
             if m.get('err') == 'outOfModel':
@@ -197,7 +205,7 @@ def main(tier, seed):
     def kf_replay(f):
         w = f['witness']
         r = run_text((w['text'], w.get('props', False)))
-        return r['parse'].startswith('internal') or any(e.startswith('internal') for _, e in r.get('render', []))
+        return r['parse'].startswith('internal') or any(e.startswith('internal') or e.startswith('lib:') for _, e in r.get('render', []))
 
     return ctx.finish(
         rule='50 hand-picked edge documents (empty, comment-only, BOM, whitespace-only notes, dotted quoted types, braces, huge '
